@@ -9,7 +9,9 @@ Definition Q (s : string) : bytes := list_byte_of_string s.
 Inductive sfield : Type :=
 | SFPrim (p : pspec)
 | SFBitmap (b : bmspec)
-| SFComp (pref : prefixer) (len : Z) (pad : padder) (mode : option cmode) (subs : list (bytes * sfield)).
+| SFComp (pref : prefixer) (len : Z) (pad : padder) (mode : option cmode) (subs : list (bytes * sfield))
+| SFTrack2 (p : pspec)                                                        (* "type":"Track2" *)
+| SFOdd (ty : bytes) (pref : prefixer) (len : Z) (pad : padder) (dae : bool). (* a primitive type over a definition with subfields: no encoding *)
 
 (* ---- names (EncodingsIntToExt / EncodingsExtToInt, prefix Inspect() / PrefixesExtToInt, ...) ---- *)
 Definition enc_ext_name (e : encoder) : option bytes :=
@@ -218,6 +220,8 @@ Fixpoint import_field (fuel : nat) (d : jdoc) : outcome sfield :=
                     Err (Q "import.invalid_composite")
                   else if bytes_eqb (d_type dm) (Q "Bitmap") then
                     Ok (SFBitmap {| bm_len := d_len dm; bm_auto := negb (d_dae dm); bm_enc := e; bm_pref := pref |})
+                  else if bytes_eqb (d_type dm) (Q "Track2") then
+                    Ok (SFTrack2 {| ps_kind := KString; ps_enc := e; ps_pref := pref; ps_len := d_len dm; ps_pad := d_pad dm; ps_packer := PkDefault |})
                   else
                     let k := if bytes_eqb (d_type dm) (Q "Numeric") then KNumeric else if bytes_eqb (d_type dm) (Q "Binary") then KBinary else KString in
                     Ok (SFPrim {| ps_kind := k; ps_enc := e; ps_pref := pref; ps_len := d_len dm; ps_pad := d_pad dm; ps_packer := PkDefault |})
@@ -235,7 +239,9 @@ Fixpoint import_field (fuel : nat) (d : jdoc) : outcome sfield :=
                                | SFBitmap bs => Ok (Some bs)
                                | SFPrim p => do bdm <- decode_dummy bd;
                                              Ok (Some {| bm_len := ps_len p; bm_auto := negb (d_dae bdm); bm_enc := ps_enc p; bm_pref := ps_pref p |})
-                               | SFComp _ _ _ _ _ => Err (Q "import.bitmap_with_subfields")
+                               | SFTrack2 p => do bdm <- decode_dummy bd;
+                                               Ok (Some {| bm_len := ps_len p; bm_auto := negb (d_dae bdm); bm_enc := ps_enc p; bm_pref := ps_pref p |})
+                               | SFComp _ _ _ _ _ | SFOdd _ _ _ _ _ => Err (Q "import.bitmap_with_subfields")
                                end
                        end;
               if bytes_eqb (d_type dm) (Q "Composite") && negb (composite_valid (d_pad dm) tag bm (map fst subs) && match d_pad dm with PadNone => true | _ => false end)
@@ -246,7 +252,8 @@ Fixpoint import_field (fuel : nat) (d : jdoc) : outcome sfield :=
                             | None, Some (tl, te, tp, Some ts) => Some (CTag {| tg_len := tl; tg_enc := te; tg_pad := tp; tg_sort := ts; tg_skip := false; tg_prefunk := None |})
                             | _, _ => None
                             end in
-                Ok (SFComp pref (d_len dm) (d_pad dm) mode subspecs)
+                if bytes_eqb (d_type dm) (Q "Composite") then Ok (SFComp pref (d_len dm) (d_pad dm) mode subspecs)
+                else Ok (SFOdd (d_type dm) pref (d_len dm) (d_pad dm) (d_dae dm))
           end
       end
   end.
@@ -295,6 +302,10 @@ Fixpoint show_sfield (s : sfield) : bytes :=
   match s with
   | SFPrim p => Q "(P " ++ kind_name (ps_kind p) ++ sp ++ enc_term_name (ps_enc p) ++ sp ++ pref_name (ps_pref p) ++ sp ++ show_int (ps_len p) ++ sp ++ show_pad (ps_pad p) ++ Q " D)"
   | SFBitmap b => show_bm (Q "BM") b
+  | SFTrack2 p => Q "(P Track2 " ++ enc_term_name (ps_enc p) ++ sp ++ pref_name (ps_pref p) ++ sp ++ show_int (ps_len p) ++ sp ++ show_pad (ps_pad p) ++ Q " D)"
+  | SFOdd ty pref len pad dae =>
+      if bytes_eqb ty (Q "Bitmap") then Q "(BM " ++ show_int len ++ sp ++ (if dae then Q "0" else Q "1") ++ Q " nil " ++ pref_name pref ++ Q ")"
+      else Q "(P " ++ ty ++ Q " nil " ++ pref_name pref ++ sp ++ show_int len ++ sp ++ show_pad pad ++ Q " D)"
   | SFComp pref len pad mode subs =>
       let shown := (fix go (l : list (bytes * sfield)) : list (bytes * bytes) :=
                       match l with [] => [] | (t, s') :: r => (t, show_sfield s') :: go r end) subs in
